@@ -108,6 +108,11 @@ func runCell(base string, c Cell) *Result {
 			env = append(env, k+"="+v)
 		}
 	}
+	if c.Host.SysTrustCert != "" {
+		f := filepath.Join(c.Dir, "systrust.pem")
+		os.WriteFile(f, []byte(c.Host.SysTrustCert), 0o644)
+		env = append(env, "SSL_CERT_FILE="+f)
+	}
 	cmd.Env = env
 	cmd.SysProcAttr = &syscall.SysProcAttr{Setpgid: true} // own process group: a hung cell can be killed with its children
 	done := make(chan struct{})
